@@ -61,6 +61,14 @@ def items(tier):
                         "teams": [{"name": "TM0", "targets": [0], "workers": [w0, w1]}],
                     }
                     out.append((sp, {"rule": "TSLACK", "max_time": 10}))
+    for fixf, solo1, skill0 in itertools.product((None, ["F0"], ["F1"]), (False, True), (1.0, 2.0)):
+        f0 = {"name": "Lathe", "id": "F0", "skills": {"T0": skill0}, "cost": 1.0}
+        f1 = {"name": "Lathe", "id": "F1", "skills": {"T0": 1.5}, "solo": solo1, "cost": 1.0}
+        ws = [{"name": "W%d" % i, "skills": {"T0": 1.0}, "fskills": {"Lathe": 1.0}, "cost": 1.0} for i in range(2)]
+        for frule in ("SSP", "HSV"):
+            sp = {"tasks": [{"name": "T0", "work": 4.0, "nf": True, "fixf": fixf, "frule": frule}], "links": [], "components": [{"name": "C0", "tasks": [0]}],
+                  "workplaces": [{"name": "WP0", "cap": 1.0, "targets": [0], "facilities": [f0, f1]}], "teams": [{"name": "TM0", "targets": [0], "workers": ws}]}
+            out.append((sp, {"rule": "TSLACK", "max_time": 10}))
     for sp in F.fac_specs(tier):
         out.append((sp, {"rule": "TSLACK", "max_time": F.seq_bound(sp) + 8}))
     for sp in F.same_name_task_specs():
